@@ -400,6 +400,7 @@ class Ctx:
         wall = round(time.time() - self.t0, 2)
         cov = dict(self.cov)
         cov.setdefault("known_findings_hit", sorted(self.known_hit))
+        _sanitize_coverage(cov)
         ev = {"property_id": self.prop, "tier": self.tier, "seed": self.seed, "level": self.level,
               "coverage": cov, "assumptions": self.assumptions, "wall_s": wall,
               "violations": len(self.violations)}
@@ -422,6 +423,31 @@ class Ctx:
                                                         " no-failing-input-found" if v["nofail"] else ""))
         sys.stdout.flush()
         return 1 if self.violations else 0
+
+
+INT_KEYS = ("evaluations", "distinct_nontrivial", "states", "transitions", "traces_validated_against_impl",
+            "obligations", "discharged", "programs", "disagreements_checked")
+
+
+def _sanitize_coverage(cov):
+    """Keep the evidence file valid against EVIDENCE.schema.json whatever a check module put in."""
+    if "exhaustive" in cov and not isinstance(cov["exhaustive"], bool):
+        cov["exhaustive_note"] = str(cov["exhaustive"])
+        cov["exhaustive"] = False
+    for k in INT_KEYS:
+        if k in cov and not (isinstance(cov[k], int) and not isinstance(cov[k], bool)):
+            try:
+                cov[k] = int(cov[k])
+            except (TypeError, ValueError):
+                cov[k + "_note"] = str(cov.pop(k))
+    for k in ("rule", "checker_cmd", "explanation"):
+        if k in cov and not isinstance(cov[k], str):
+            cov[k] = json.dumps(cov[k], ensure_ascii=False, default=str)
+    if "samples" in cov and not isinstance(cov["samples"], list):
+        cov["samples"] = [cov["samples"]]
+    if "trusted_base" in cov:
+        tb = cov["trusted_base"]
+        cov["trusted_base"] = [str(x) for x in (tb if isinstance(tb, list) else [tb])]
 
 
 def proof_step(ctx, module, theorems, targets, trusted_base, allowed=None, translators=None):
